@@ -24,10 +24,29 @@ Ltac tie_destruct_args :=
 
 Ltac tie_simpl := cbn [andb orb negb xorb Bool.eqb fst snd].
 
+(* answers of the algorithms that are not translated (loops): opaque booleans *)
+Ltac tie_opaque_in c :=
+  let go t := (let b := fresh "opq" in set (b := t) in *; clearbody b; destruct b) in
+  match c with
+  | context [raycast_on ?s ?p] => go (raycast_on s p)
+  | context [raycast_in ?s ?p] => go (raycast_in s p)
+  | context [ring_empty ?l] => go (ring_empty l)
+  | context [poly_empty ?l] => go (poly_empty l)
+  | context [ring_intersects_line ?a ?b ?c] => go (ring_intersects_line a b c)
+  | context [ring_intersects_ring ?a ?b ?c] => go (ring_intersects_ring a b c)
+  | context [ring_contains_ring ?a ?b ?c] => go (ring_contains_ring a b c)
+  | context [line_contains_point_r ?a ?b] => go (line_contains_point_r a b)
+  | context [line_intersects_line ?a ?b] => go (line_intersects_line a b)
+  | context [poly_contains_point ?a ?b] => go (poly_contains_point a b)
+  | context [poly_contains_poly ?a ?b] => go (poly_contains_poly a b)
+  | context [poly_intersects_poly ?a ?b] => go (poly_intersects_poly a b)
+  | context [poly_contains_line ?a ?b] => go (poly_contains_line a b)
+  | context [poly_intersects_line ?a ?b] => go (poly_intersects_line a b)
+  end.
+
 Ltac tie_step :=
   match goal with
-  | |- context [raycast_on ?s ?p] => let b := fresh "ray" in set (b := raycast_on s p) in *; clearbody b; destruct b
-  | |- context [raycast_in ?s ?p] => let b := fresh "ray" in set (b := raycast_in s p) in *; clearbody b; destruct b
+  | |- ?g => tie_opaque_in g
   | |- context [?x <? ?y] => destruct (Z.ltb_spec x y)
   | |- context [?x <=? ?y] => destruct (Z.leb_spec x y)
   | |- context [?x =? ?y] => destruct (Z.eqb_spec x y)
@@ -37,8 +56,7 @@ Ltac tie_step :=
    then only one branch survives and shared continuations are never split more than once per path *)
 Ltac tie_atom c :=
   match c with
-  | context [raycast_on ?s ?p] => let b := fresh "ray" in set (b := raycast_on s p) in *; clearbody b; destruct b
-  | context [raycast_in ?s ?p] => let b := fresh "ray" in set (b := raycast_in s p) in *; clearbody b; destruct b
+  | _ => tie_opaque_in c
   | context [?x <? ?y] => destruct (Z.ltb_spec x y)
   | context [?x <=? ?y] => destruct (Z.leb_spec x y)
   | context [?x =? ?y] => destruct (Z.eqb_spec x y)
@@ -70,13 +88,24 @@ Ltac tie_sync :=
 Ltac tie_finish :=
   try reflexivity; try lia; repeat (f_equal; try lia); try (exfalso; lia).
 
+(* rectangles of opaque operands become variables *)
+Ltac tie_abstract_rects :=
+  repeat match goal with
+  | |- context [ring_rect ?l] => let r := fresh "rr" in set (r := ring_rect l) in *; clearbody r
+  | |- context [poly_rect ?l] => let r := fresh "rr" in set (r := poly_rect l) in *; clearbody r
+  end.
+
 Ltac tie_tac T :=
-  intros; tie_destruct_args;
-  unfold T;
+  intros; unfold T;
+  repeat progress unfold rect_contains_line, rect_contains_poly, point_contains_line, point_contains_poly;
+  tie_abstract_rects; tie_destruct_args;
   repeat progress unfold qlt, qle, qeq,
     rect_contains_point, rect_intersects_rect, rect_contains_rect, rect_area, rect_eqb, seg_rect,
     collinear_point, seg_contains_point, seg_contains_segment,
     intersects_segment, intersects_segment_gen, axis_disjoint, unit_frac,
-    point_intersects_rect, point_contains_rect, point_rect, pt_eqb, union_rects, px, py;
+    point_intersects_rect, point_contains_rect, point_rect, pt_eqb, union_rects,
+    rect_contains_line, rect_intersects_line, rect_contains_poly, rect_intersects_poly,
+    point_contains_line, point_intersects_line, point_contains_poly, point_intersects_poly,
+    line_intersects_rect, line_intersects_poly, poly_contains_rect, poly_intersects_rect, px, py;
   unfold rect, seg, pt; tie_simpl;
   repeat first [tie_sync | tie_head]; repeat tie_step; tie_finish.
